@@ -6,21 +6,22 @@ From Verif Require Import Common.Str Common.Json C04.Model_C04 C04.Proofs_C04.
 Import ListNotations.
 Open Scope N_scope.
 
-(* status_code_conformance reports an undocumented status code exactly when there is no
-   default key, every key reads as integers after replacing X/x by digits, and no key has a
+(* skeys d: the response keys that are not specification extensions (x-...).
+   status_code_conformance reports an undocumented status code exactly when there is no
+   default key, every such key reads as integers after replacing X/x by digits, and no key has a
    digit instance equal to the code (string or integer keys, any number of wildcards) *)
 Theorem C04_status_iff : forall d r,
   status_check d r = Ok [FUndefinedStatus] <->
   (~ In (KStr s_default) (keys_of d)
-   /\ (forall k e, In k (keys_of d) -> key_expansion k e -> py_int e <> None)
-   /\ (forall k, In k (keys_of d) -> ~ code_matches k (status r))).
+   /\ (forall k e, In k (skeys d) -> key_expansion k e -> py_int e <> None)
+   /\ (forall k, In k (skeys d) -> ~ code_matches k (status r))).
 Proof. exact status_iff. Qed.
 Print Assumptions C04_status_iff.
 
 (* ... and it raises ValueError exactly when there is no default and some key does not read as integers *)
 Theorem C04_status_raises_iff : forall d r,
   status_check d r = Crash EValueError <->
-  (~ In (KStr s_default) (keys_of d) /\ exists k e, In k (keys_of d) /\ key_expansion k e /\ py_int e = None).
+  (~ In (KStr s_default) (keys_of d) /\ exists k e, In k (skeys d) /\ key_expansion k e /\ py_int e = None).
 Proof. exact status_crash_iff. Qed.
 Print Assumptions C04_status_raises_iff.
 
@@ -95,11 +96,23 @@ Theorem C04_verdict_eq_spec_refuted_int_key : exists valid hvalid d r,
 Proof. exists none_valid, hnone, d_f3, r_f3. exact refuted_int_key. Qed.
 Print Assumptions C04_verdict_eq_spec_refuted_int_key.
 
-Theorem C04_verdict_eq_spec_refuted_extension_key : exists valid hvalid d r,
+Theorem C04_verdict_eq_spec_refuted_non_numeric_key : exists valid hvalid d r,
   region_flags d r = [true; true; true; false; true; true; true; true]
+  /\ status_check d r = Crash EValueError
   /\ verdict valid hvalid d r = [FCrash] /\ spec_verdict valid hvalid d r = [].
 Proof. exists none_valid, hnone, d_f4b, r_f4. exact refuted_non_numeric_key. Qed.
-Print Assumptions C04_verdict_eq_spec_refuted_extension_key.
+Print Assumptions C04_verdict_eq_spec_refuted_non_numeric_key.
+
+(* finding F4, fixed by e29caab0: the code before the fix (sentinel) raised on a specification extension key;
+   the code as it is returns a verdict there, and such documents are inside every region of the partial theorems *)
+Theorem C04_extension_key_sentinel_refuted : exists d r,
+  status_check_before_e29caab0 d r = Crash EValueError
+  /\ region_flags d r = [true; true; true; true; true; true; true; true]
+  /\ status_check d r = Ok []
+  /\ verdict none_valid hnone d r = [] /\ spec_verdict none_valid hnone d r = []
+  /\ status_check d (resp 404 None NotJson) = Ok [FUndefinedStatus].
+Proof. exists d_f4, r_f4. exact extension_key_fixed. Qed.
+Print Assumptions C04_extension_key_sentinel_refuted.
 
 Theorem C04_verdict_eq_spec_refuted_ref_chain : exists valid hvalid d r,
   region_flags d r = [true; true; true; true; false; true; true; true]
